@@ -599,6 +599,25 @@ func (r *GovParams) String() string {
 	}
 }
 
+// HasNegative reports whether any of the signed parameters is negative.
+// A negative value is never meaningful (zero means `not changed` when a proposal is applied).
+func (r *GovParams) HasNegative() bool {
+	r.mtx.RLock()
+	defer r.mtx.RUnlock()
+
+	for _, v := range []int64{
+		r.version, r.maxValidatorCnt, r.lazyRewardBlocks, r.lazyApplyingBlocks,
+		r.minVotingPeriodBlocks, r.maxVotingPeriodBlocks,
+		r.minSelfStakeRatio, r.maxUpdatableStakeRatio, r.maxIndividualStakeRatio,
+		r.slashRatio, r.signedBlocksWindow, r.minSignedBlocks,
+	} {
+		if v < 0 {
+			return true
+		}
+	}
+	return false
+}
+
 // utility methods
 func MaxTotalPower() int64 {
 	return tmtypes.MaxTotalVotingPower
